@@ -48,6 +48,11 @@ pub(super) fn get_highest_index(file_spec: &FileSpec) -> Option<u32> {
     for file in
         super::list_and_cleanup::list_of_log_and_compressed_files(file_spec, &InfixFilter::Numbrs)
     {
+        // compressed files carry the additional suffix ".gz", which must not end up in the stem
+        let mut file = file;
+        if file.extension().is_some_and(|ext| ext == "gz") {
+            file.set_extension("");
+        }
         let name = file.file_stem().unwrap(/*ok*/).to_string_lossy();
         let infix = if file_spec.has_basename()
             || file_spec.has_discriminant()
